@@ -1742,16 +1742,21 @@ fn verify_nsec(
     // The SOA name, if present, must be an ancestor of the query name.  If a SOA is present,
     // we'll use that as the starting value for next_closest_encloser, otherwise, fall back to
     // the parent of the query name.
+    let have_answer = !answers.is_empty();
+
     let mut next_closest_encloser = if let Some(soa_name) = soa_name {
         if !soa_name.zone_of(&query.name) {
             return nsec1_yield(Proof::Bogus, "SOA record is for the wrong zone");
         }
         soa_name.clone()
-    } else {
+    } else if have_answer {
         query.name.base_name()
+    } else {
+        // A negative response without SOA: nothing shows that the parent of the query name exists.
+        // Start from the root; the search below finds the longest ancestor of the query name that
+        // the covering record proves to exist.
+        Name::root()
     };
-
-    let have_answer = !answers.is_empty();
 
     // For a no data response with a directly matching NSEC record, we just need to verify the NSEC
     // type set does not contain the query type or CNAME.
